@@ -1,5 +1,102 @@
 import JF.Driver.Core
+import JF.Model.Walker
 namespace JF.Driver
-/-- component `walker` (stub until its model is written) -/
-def walkerComp : Comp := Comp.pure fun _ => "unimplemented"
+open JF JF.Walker
+
+/-- session state of component `walker`: the last built walker and the last initialised handler -/
+structure WalkerSt where
+  walker : Option (Table Float) := none
+  handler : Option (Handler Float) := none
+
+private def showRow : Row Float → String
+  | .pair s l => s!"p:{s.item}:{bits s.rate}:{l.item}:{bits l.rate}"
+  | .single x => s!"s:{x.item}:{bits x.rate}"
+
+private def showTable (t : Table Float) : String :=
+  joinSp (["ok", bits t.total, bits t.mean, toString t.rows.length] ++ t.rows.map showRow)
+
+private def showNat : Except Err Nat → String
+  | .ok n => s!"ok {n}"
+  | .error e => e.token
+
+/-- split `k` tokens off -/
+private def takeFl (k : Nat) (l : List String) : List Float × List String := ((l.take k).map fl, l.drop k)
+
+/-- parse `dim` blocks `n L cmin*n cmax*n` -/
+private def parseGrid : Nat → List String → Option (List (Nat × Float × List Float × List Float) × List String)
+  | 0, l => some ([], l)
+  | d + 1, n :: len :: rest =>
+    let n' := nat! n
+    if rest.length < 2 * n' then none else
+    let (mn, rest) := takeFl n' rest
+    let (mx, rest) := takeFl n' rest
+    match parseGrid d rest with
+    | none => none
+    | some (bs, rest) => some ((n', fl len, mn, mx) :: bs, rest)
+  | _, _ => none
+
+/-- `ndom` rows of `dim` pairs -/
+private def parseEst (dim : Nat) : Nat → List String → List (List (Float × Float))
+  | 0, _ => []
+  | j + 1, l =>
+    let row := (List.range dim).map fun d => (fl (l[2 * d]!), fl (l[2 * d + 1]!))
+    row :: parseEst dim j (l.drop (2 * dim))
+
+def walkerComp : Comp := ⟨WalkerSt, {}, fun st args =>
+  match args with
+  | "sum" :: rs => (st, bits (pysum Ops.float (rs.map fl)))
+  | "build" :: rs =>
+    match build Ops.float (rs.map fl) with
+    | .ok t => ({ st with walker := some t }, showTable t)
+    | .error e => ({ st with walker := none }, e.token)
+  | ["sample", k, x] =>
+    match st.walker with
+    | none => (st, "no-walker")
+    | some t => (st, showNat (sampleCell t (nat! k) (fl x)))
+  | "hinit" :: dim :: nl :: rest =>
+    let dim' := nat! dim
+    match parseGrid dim' rest with
+    | none => (st, "bad-args")
+    | some (blocks, rest) =>
+      let g : Grid Float := ⟨blocks.map (fun b => ⟨b.1, b.2.1, b.2.2.1, b.2.2.2⟩), nat! nl⟩
+      let dom := domainOf g.ns g.nl
+      if rest.length != 2 * dim' * dom.length then (st, s!"bad-args domain {dom.length}") else
+      match initHandler Ops.float g (parseEst dim' dom.length rest) with
+      | .error e => ({ st with handler := none }, e.token)
+      | .ok h =>
+        ({ st with handler := some h },
+         joinSp (["ok", toString dom.length] ++ dom.map toString ++ h.upper.map (bits ·.total) ++ h.lower.map (bits ·.total)))
+  | ["htable", ul, dir] =>
+    match st.handler with
+    | none => (st, "no-handler")
+    | some h =>
+      match (if ul == "u" then h.upper else h.lower)[nat! dir]? with
+      | none => (st, "bad-args")
+      | some t => (st, showTable t)
+  | "translate" :: [cell, rel] =>
+    match st.handler with
+    | none => (st, "no-handler")
+    | some h => (st, showNat (translate Ops.float h.grid (nat! cell) (nat! rel)))
+  | "postocell" :: ps =>
+    match st.handler with
+    | none => (st, "no-handler")
+    | some h => (st, showNat (posToCell Ops.float h.grid (ps.map fl)))
+  | "hsend" :: rest =>
+    match st.handler with
+    | none => (st, "no-handler")
+    | some h =>
+      let dim := h.grid.dims.length
+      if rest.length != 2 * dim + 6 then (st, "bad-args") else
+      let (vel, rest) := takeFl dim rest
+      match rest with
+      | cf :: rest =>
+        let (pos, rest) := takeFl dim rest
+        match rest with
+        | [tq, tr, k, x, e] =>
+          match sendEventTime Ops.float h vel (fl cf) pos ⟨fl tq, fl tr⟩ (nat! k) (fl x) (fl e) with
+          | .ok p => (st, s!"ok {bits p.time.q} {bits p.time.r} {p.target} {bits p.boundingRate}")
+          | .error er => (st, er.token)
+        | _ => (st, "bad-args")
+      | _ => (st, "bad-args")
+  | _ => (st, "bad-op")⟩
 end JF.Driver
